@@ -87,9 +87,10 @@ def run(ctx: common.Ctx) -> None:
                     wit = {"task": t, "plan": plan, "cold1": res["cold1"], "cold2": res["cold2"], "state_classes": case["state_classes"]}
                     bad = False
                     if case.get("victim_equal_cold") is False:
-                        ctx.violation(mech(case, "victim"), "a run whose cache writes failed reports something different from a cold run",
-                                      {**wit, "out": case.get("victim_out"), "diffs": case.get("victim_diffs")})
-                        bad = True
+                        # The property speaks about the NEXT run. What the faulty run itself prints is observed and
+                        # reported (in parallel mode the cache is the workers' communication medium, so a failed
+                        # write can make the faulty run itself wrong), but it is not a C04 verdict.
+                        ctx.cell(f"observation:faulty-run-itself-differs-from-cold:{role}")
                     for which in ("follow1", "follow2", "follow3"):
                         if case.get(which + "_equal") is False:
                             ctx.violation(mech(case, which), f"{which} run after the fault differs from the cold run",
